@@ -741,6 +741,10 @@ impl<'a> Driver<'a> {
                     }
                     if next_resp.is_some() {
                         let r = next_resp.unwrap();
+                        if r.opaque == f.req.opaque && r.opcode != f.req.opcode && r.magic == 0x81 {
+                            // the answer to this very request (its opaque), under another opcode
+                            self.viol("C11", "opcode-not-echoed", format!("c{}: request #{} ({}) was answered with opcode {:#04x}: {}", c, f.sym_index, describe_req(&f.req), r.opcode, r.short()));
+                        }
                         self.viol("C12", "response-out-of-order", format!("c{}: expected the answer to request #{} ({}), got {}", c, f.sym_index, describe_req(&f.req), r.short()));
                         self.conns[c].desync = true;
                         return;
